@@ -187,4 +187,4 @@ def jobs(tier):
 
 def main(report, tier):
     from . import mbuild
-    return summarize(report, runner.run_tasks(jobs(tier) + mbuild.jobs(tier)), 'C14')
+    return summarize(report, runner.run_tasks(jobs(tier) + mbuild.jobs('thorough')), 'C14')      # the builder-tree harnesses are cheap: the full list in both tiers
